@@ -262,7 +262,7 @@ func TestVerif_C02_h1body(t *testing.T) {
 	s := verifh.New(t, "C02", "h1body",
 		"framing {Content-Length n, chunked (+extensions, upper-case hex, 0..3 trailers), until-close} x body 0..65537 bytes (sizes around 512/4096/8192/16384/65536; random or CR/LF/hex-digit alphabet) x chunk splits x 0..40 bytes of following data x malformed stream (truncation at a random offset with EOF or reset, corrupted chunk framing, oversized size line) x network segmentation {whole, 1-byte, small, MTU/buffer-size, random} x read sizes {1,7,512,4096,65536,mixed incl. 0,random} x bufio size {4096, 16, 64, 8192}; real readTransfer body + bodyEOFSignal over bufio.Reader; compared Read by Read; non-trivial = >=2 segments and >=2 reads and non-empty body")
 	r := s.Rand()
-	n := verifh.N(1200, 40000)
+	n := verifh.N(1200, 12000)
 	for c := 0; c < n; c++ {
 		bodyStr := c02GenBody(s, true)
 		kind := r.Intn(3)
